@@ -417,6 +417,23 @@ func (s *Std) AttestationCases() []P2PCase {
 				add("voted block conflicts with the finalized checkpoint", exp, now, 0, nil, run(a.single(0, d, -1), subnet))
 			}
 		}
+		if fb := s.V.Blocks[s.V.Fin.Root]; fb != nil && slot == s.Head.Slot {
+			// a vote for the finalized block itself, target = the finalized checkpoint (e.g. epoch-0 attestations to
+			// the genesis block): honest as long as it is inside the propagation window
+			fslot := uint64(s.V.Fin.Epoch) * c.SlotsPerEpoch
+			if fb.Slot <= fslot && attWindow(c, fslot, now, 0) && s.Head.Slot+1 < fslot+c.SlotsPerHistoricalRoot {
+				fa := s.attCtx(fslot, 0)
+				d := fa.data
+				d.BeaconBlockRoot = refspec.Root(s.V.Fin.Root)
+				d.Target = refspec.Checkpoint{Epoch: uint64(s.V.Fin.Epoch), Root: refspec.Root(s.V.Fin.Root)}
+				fcps := fa.pre.CommitteeCountPerSlot(c, c.EpochAtSlot(fslot))
+				fsub := subnetFor(c, fcps, fslot, 0)
+				add("vote for the finalized block itself with the finalized checkpoint as target", ExpAccept, now, 0, nil, func(v *View) gossipval.GossipValidatorResult {
+					_, res := gossipval.ValidateAttestation(context.Background(), fsub, toRealAtt(w, fa.single(0, d, -1)), v)
+					return res
+				})
+			}
+		}
 		{
 			v := run(honestAtt, subnet)
 			out = append(out, P2PCase{Topic: "beacon_attestation", Name: fmt.Sprintf("slot %d: vote for a block that failed validation", slot), Expect: ExpNotAccept, NowSlot: now, Honest: nil,
@@ -915,6 +932,19 @@ func (s *Std) SyncCases() []P2PCase {
 		addC(fmt.Sprintf("clock sweep: honest contribution at clock slot %d + %dms", n, off), expectOf(currentSlotOnly(c, now, n, off)), n, off, nil, hc)
 	})
 	addC("already seen for (aggregator, slot, subcommittee)", ExpIgnore, now, 0, []string{fmt.Sprintf("contrib/%d/%d/%d", firstSel, now, 0)}, hc)
+	// partial participation: only the first / only the last seat / every other seat of the subcommittee
+	for _, pat := range []string{"first", "last", "alternate"} {
+		g := baseC
+		g.bits = make([]bool, subSize)
+		g.aggSigners = nil
+		for i := uint64(0); i < subSize; i++ {
+			if (pat == "first" && i == 0) || (pat == "last" && i == subSize-1) || (pat == "alternate" && i%2 == 1) {
+				g.bits[i] = true
+				g.aggSigners = append(g.aggSigners, subIdx[i])
+			}
+		}
+		addC(fmt.Sprintf("honest, only the %s seat(s) of the subcommittee participate", pat), ExpAccept, now, 0, nil, runC(g))
+	}
 	{
 		g := baseC
 		g.sub = 4
